@@ -415,10 +415,14 @@ def task_activation(t):
                 s.apply(['call', 'Y', 0])
             started0 = s.start_log().get(c19.S1, 0)
             pre = re.sub(r'serial=\d+', 'serial=*', s.impl_key())
-            c = s.slots['X']
+            who = 'T' if kind == 'take' else 'X'
+            c = s.slots[who]
             ser = s.bus.next_serial(c)
             if kind == 'call':
                 m = R.method_call(ser, c19.S1, '/svc', 'svc.i', 'Work', [R.S('oomtok')])
+            elif kind == 'take':
+                # the service connection takes the name: the held messages are delivered and StartServiceByName callers answered
+                m = R.bus_call(ser, 'RequestName', [R.S(c19.S1), R.U(4)])
             else:
                 m = R.bus_call(ser, 'StartServiceByName', [R.S(c19.S1), R.U(0)])
             s.bus.send(c, R.encode_message(m))
@@ -432,11 +436,15 @@ def task_activation(t):
             s.settle()
             time.sleep(0.03)
             s.settle()
-            errs = [o for o in s.take('X') if o.kind == R.MT_ERROR and o.rserial == ser]
+            box = s.take(who)
+            errs = [o for o in box if o.kind == R.MT_ERROR and o.rserial == ser]
+            delivered = sorted(o.body[0][1] for o in box if o.kind == R.MT_CALL and o.body)
+            others = sorted((l, o.kind, o.errname) for l in ('X', 'Y') if l != who for o in s.take(l) if o.kind in (R.MT_ERROR, R.MT_RETURN))
             post = re.sub(r'serial=\d+', 'serial=*', s.impl_key())
             started = s.start_log().get(c19.S1, 0) - started0
             entries = s.impl_pending().get(c19.S1, 0)
-            return {'fired': fired, 'errs': [e.errname for e in errs], 'pre': pre, 'post': post, 'started': started, 'entries': entries, 'eof': s.eof.get('X')}
+            return {'fired': fired, 'errs': [e.errname for e in errs] + ([('delivered', delivered), ('others', others)] if kind == 'take' else []),
+                    'pre': pre, 'post': post, 'started': started, 'entries': entries, 'eof': s.eof.get(who)}
         finally:
             s.close()
     try:
@@ -451,7 +459,7 @@ def task_activation(t):
             same = (r['errs'], r['started'], r['entries'], r['post']) == (base['errs'], base['started'], base['entries'], base['post'])
             if same:
                 kinds['absorbed'] += 1
-            elif r['errs'] == [b'org.freedesktop.DBus.Error.NoMemory'] and not r['eof']:
+            elif r['errs'][:1] == [b'org.freedesktop.DBus.Error.NoMemory'] and not r['eof'] and (kind != 'take' or r['errs'][1:] == [('delivered', []), ('others', [])]):
                 kinds['nomem'] += 1
                 # the request reported failure: no process may have been started for it and the bus state must be as before
                 if r['started'] != 0 and not prior:
@@ -460,6 +468,11 @@ def task_activation(t):
                     d0, d1 = diff_dump(r['pre'], r['post'])
                     out.append(Violation('oom-state-changed', 'activation:' + '+'.join(sorted({x.split(' ')[0] for x in d0 + d1})),
                                          'auto-start %s (prior pending %d), allocation %d failing: the caller got NoMemory but the state changed\n before: %s\n after : %s' % (kind, prior, k, d0, d1), case))
+            elif kind == 'take' and r['errs'][0][0] == 'delivered' and r['entries'] == 0 and \
+                    ((r['errs'][0][1] == [] and len(r['errs'][1][1]) == 1 and r['errs'][1][1][0][1] == R.MT_ERROR)):
+                # the name was taken, but delivering the held message ran out of memory: its sender was told so
+                # (exactly one error, no delivery) -- every party has a definite outcome
+                kinds['held-message-failed-cleanly'] += 1
             else:
                 kinds['partial'] += 1
                 out.append(Violation('oom-partial-outcome', 'activation', 'auto-start %s (prior pending %d), allocation %d failing: errors %r, processes started %d, pending entries %d, sender disconnected %s; uninjected: errors %r, started %d, entries %d' %
@@ -508,6 +521,7 @@ def run(ctx):
     for kind_ in ('call', 'start'):
         for prior_ in (0, 1):
             tasks.append((task_activation, (kind_, prior_)))
+    tasks.append((task_activation, ('take', 1)))
     pool = Pool()
     lib_idx = bus_idx = 0
     nops = 0
